@@ -383,8 +383,8 @@ REG.spec('agent/executing/base.py:AgentExecutingComponent.control_cb#cancel',
 # BaseComponent.is_canceled: a named task that a component meets later is
 # canceled there instead of being processed (C08)
 #
-CTask = T.Rec('CTask', uid=T.Str, state=OStr, slots=OAny, target_state=OStr)
-REG.optional_keys['CTask'] = {'state', 'slots', 'target_state'}
+CTask = T.Rec('CTask', uid=T.Str, state=OStr, slots=OAny, target_state=OStr, proc=T.Opt(Proc), exit_code=T.Opt(T.Int))
+REG.optional_keys['CTask'] = {'state', 'slots', 'target_state', 'proc', 'exit_code'}
 
 
 def _adv_canceled(ex, node, st):
@@ -422,21 +422,31 @@ REG.spec('utils/component.py:BaseComponent.is_canceled',
     ensures  = _isc_post,
     serves   = ['C08'], **_isc)
 
-# the same function, instantiated for the executor: a task that arrives there
-# (AGENT_EXECUTING_PENDING) holds a placement; giving it up without processing
-# it must request the release of that placement (C03 / C08)
-_isc_ex = dict(_isc)
-_isc_ex['effects'] = {'self.advance': _adv_canceled, 'self.publish': _publish}
-_isc_ex['modifies'] = ['self._cancel_list', 'adv_log', 'fin_log', 'token']
-REG.spec('utils/component.py:BaseComponent.is_canceled#executor',
-    fragment = 'with self._cancel_lock:',
-    fragment_marker = 'self._cancel_list.remove(tid)',
+# the executor's own is_canceled (added by fix commit, see known_findings.json): a
+# task found canceled before it was launched - dropped by the component's intake
+# filter - holds a placement; the executor asks for its release, exactly once, and
+# leaves a task that already has a process to cancel_task / the watcher (C03 / C08)
+
+REG.spec('agent/executing/base.py:AgentExecutingComponent.is_canceled',
+    params   = dict(task=CTask),
+    self     = dict(_cancel_list=T.List(T.Str)),
+    returns  = T.Bool,
     ghost    = _ghost,
-    ensures  = [('a-placed-task-given-up-at-the-executor-intake-is-released',
-                 'implies(in_list(old(self._cancel_list), task.uid) and task.slots is not None, '
-                 'len(fin_log) == len(old(fin_log)) + 1 and fin_log[len(old(fin_log))].uid == task.uid)')],
-    returns_in_fragment = True,
-    serves   = ['C03', 'C08'], **_isc_ex)
+    calls    = {'super.is_canceled': 'utils/component.py:BaseComponent.is_canceled'},
+    effects  = {'self.publish': _publish},
+    requires = ['forall(lambda k: k not in token, Str)'],
+    modifies = ['self._cancel_list', 'adv_log', 'fin_log', 'token'],
+    raises   = {},
+    ensures  = [
+      ('canceled-iff-named', 'result == in_list(old(self._cancel_list), task.uid)'),
+      ('a-placed-task-given-up-before-its-launch-is-released-once',
+       'implies(result and task.proc is None, len(fin_log) == len(old(fin_log)) + 1 and fin_log[len(old(fin_log))].uid == task.uid)'),
+      ('a-task-that-has-a-process-or-is-not-named-is-not-released-here',
+       'implies(not result or task.proc is not None, fin_log == old(fin_log))'),
+      ('earlier-release-requests-kept', 'forall(lambda k: implies(0 <= k < len(old(fin_log)), fin_log[k] == old(fin_log)[k]))'),
+      ('no-token-left-behind', 'forall(lambda k: k not in token, Str)'),
+    ],
+    serves   = ['C03', 'C08'])
 
 
 # ------------------------------------------------------------------------------
